@@ -5577,7 +5577,8 @@ class CodegenCtx:
             if chr(i) in ["\\", '"']:
                 result += "\\" + chr(i)
             elif not (32 <= i < 127):
-                result += "\\x{:02x}".format(i)
+                # octal escapes are at most three digits long, so unlike \x they cannot swallow a following character
+                result += "\\{:03o}".format(i)
             else:
                 result += chr(i)
         return result
